@@ -539,3 +539,66 @@ Definition C04_label_invariant (c : ccfg) (evs : list ev) : option string :=
       | _, _ => None
       end
   end.
+
+(* ================= C12: failures, retries, benign races ================= *)
+Definition fail_class (e : ev) : option eclass := match e_ans e with AFail c => Some c | _ => None end.
+
+(* the documented benign races, by call site (requests after the hook) *)
+Definition benign_after_hook (c : ccfg) (parent : json) (e : ev) : bool :=
+  match is_api e, fail_class e with
+  | Some q, Some cl =>
+      if targets_parent c parent q then
+        (* status write: the parent is gone, or changed under us *)
+        eclass_eqb cl ENotFound || eclass_eqb cl EConflict
+      else
+        match q_verb q with
+        | VDelete => eclass_eqb cl ENotFound
+        | VCreate => eclass_eqb cl EAlreadyExists
+        | VUpdate => eclass_eqb cl ENotFound || eclass_eqb cl EConflict
+        | _ => false
+        end
+  | _, _ => true
+  end.
+
+Definition hard_failure (e : ev) : bool :=
+  match e_ans e with
+  | AFail EOther | AFail EInvalid => true
+  | AHookErr => true
+  | _ => false
+  end.
+
+Definition qhas (qs : list (string * string * Z)) (op key : string) : bool :=
+  existsb (fun t => match t with (o, k, _) => String.eqb o op && String.eqb k key end) qs.
+
+Definition C12_round (c : ccfg) (parent : json) (key : string) (evs : list ev) (res : sync_result)
+           (qs : list (string * string * Z)) : option string :=
+  match res with
+  | SPanic => Some "panic"
+  | _ =>
+      (* requeue discipline *)
+      if negb (qhas qs "Done" key) then Some "work-item-not-marked-done" else
+      if qhas qs "AddRateLimited" key && qhas qs "Forget" key then Some "forgotten-and-requeued" else
+      if negb (qhas qs "AddRateLimited" key) && negb (qhas qs "Forget" key) then Some "neither-requeued-nor-forgotten" else
+      (* a hard failure anywhere must surface as an error with back-off *)
+      if existsb hard_failure evs && negb (qhas qs "AddRateLimited" key) then Some "failure-swallowed-without-requeue" else
+      (* 429: requeue after the advertised delay, not an error *)
+      match first_some (fun e => match e_ans e with AHook429 n => Some (string_of_Z n) | _ => None end) evs with
+      | Some n =>
+          if qhas qs "AddRateLimited" key then Some "hook-429-counted-as-error" else
+          if existsb (fun t => match t with (o, k, d) => String.eqb o "AddAfter" && String.eqb k key &&
+                                                         String.eqb (string_of_Z (d / 1000)) n end) qs
+          then None else Some "hook-429-not-requeued-after-delay"
+      | None =>
+          (* only benign races after a clean prelude: not an error *)
+          if status_phase_seen c parent evs && forallb accepted (before_hook evs) &&
+             forallb (benign_after_hook c parent) (after_hook evs) &&
+             negb (existsb hard_failure evs) && qhas qs "AddRateLimited" key
+          then
+            (* conflicts on the parent are retried up to four times; four in a row is an error *)
+            if Nat.leb 4 (List.length (filter (fun e => match is_api e, fail_class e with
+                                                        | Some q, Some EConflict => targets_parent c parent q
+                                                        | _, _ => false end) evs))
+            then None else Some "benign-race-reported-as-error"
+          else None
+      end
+  end.
